@@ -386,4 +386,308 @@ theorem secondPass_writes (ex : Bytes → Bool) (root : Bytes) :
         · exact Or.inl h1
         · exact Or.inr ⟨(aid, tg), by simp, id, sets, hp, h1⟩
 
+/-! ### where panics come from -/
+
+/-- the first pass panics in `readTGData` only, and only for a length field that is negative
+(`makeslice`) or 0…6 with that many bytes present (`tgSerialized[:7]`) -/
+theorem step_panic {fsz : Nat} {r : Bytes} {st : St} {p : Panic} (h : step md5 fsz r st = .panic p) :
+    ∃ r1, r = midTGDATA :: r1 ∧ 8 ≤ r1.length ∧ leDecodeInt (r1.take 8) < safetyFactor * fsz ∧
+      ((leDecodeInt (r1.take 8) < 0 ∧ p = .makeslice) ∨
+       (0 ≤ leDecodeInt (r1.take 8) ∧ leDecodeInt (r1.take 8) < 7 ∧
+        leDecodeInt (r1.take 8) ≤ (r1.length : Int) - 8 ∧ p = .slice)) := by
+  unfold step at h
+  cases r with
+  | nil => cases h
+  | cons b r1 =>
+    simp only at h
+    split at h
+    · rename_i hb0
+      split at h
+      · rename_i p' hrd
+        injection h with h; subst h
+        refine ⟨r1, by rw [hb0], ?_⟩
+        unfold readTGData at hrd
+        split at hrd; · cases hrd
+        simp only at hrd
+        split at hrd; · cases hrd
+        split at hrd
+        · injection hrd with hrd; subst hrd
+          rename_i h1 h2 h3
+          simp only [tgLenBytes] at h1 h2 h3 ⊢
+          exact ⟨by omega, by omega, Or.inl ⟨h3, trivial⟩⟩
+        split at hrd; · cases hrd
+        split at hrd
+        · injection hrd with hrd; subst hrd
+          rename_i h1 h2 h3 h4 h5
+          simp only [tgLenBytes, tgIDBytes, List.length_drop] at h1 h2 h3 h4 h5 ⊢
+          exact ⟨by omega, by omega, Or.inr ⟨by omega, by omega, by omega, trivial⟩⟩
+        split at hrd; · cases hrd
+        split at hrd <;> cases hrd
+      · cases h
+      · split at h <;> cases h
+      · split at h <;> cases h
+    · split at h
+      · split at h
+        · cases h
+        · try simp only at h
+          split at h <;> cases h
+      · split at h
+        · split at h
+          · cases h
+          · split at h <;> cases h
+        · cases h
+
+/-- … and in `wal.ReadStatus` only for a STATUS id that is the last byte of the file -/
+theorem step_statusEof {fsz : Nat} {r : Bytes} {st : St} (h : step md5 fsz r st = .statusEof) :
+    r = [midSTATUS] := by
+  unfold step at h
+  cases r with
+  | nil => cases h
+  | cons b r1 =>
+    simp only at h
+    split at h
+    · split at h
+      · cases h
+      · cases h
+      · split at h <;> cases h
+      · split at h <;> cases h
+    · split at h
+      · split at h
+        · cases h
+        · try simp only at h
+          split at h <;> cases h
+      · split at h
+        · rename_i hb
+          split at h
+          · rename_i hr; subst hr; rw [hb]
+          · split at h <;> cases h
+        · cases h
+
+theorem applySets_no_panic (ex : Bytes → Bool) (root : Bytes) : ∀ (sets : List WTSet) (acc : List Write),
+    (∀ s ∈ sets, 8 ≤ s.buffer.length) → ∀ p, (applySets ex root sets acc).1.1 ≠ .panic p := by
+  intro sets
+  induction sets with
+  | nil => intro acc _ p; simp [applySets]
+  | cons w ws ih =>
+    intro acc hb p
+    unfold applySets
+    simp only
+    split; · simp
+    split
+    · split
+      · have := hb w (by simp); omega
+      split; · simp
+      exact ih _ (fun s hs => hb s (by simp [hs])) p
+    · split <;> simp
+
+theorem secondPass_no_panic (ex : Bytes → Bool) (root : Bytes) :
+    ∀ (l : List (Int × Bytes)) (res : Result),
+      (∀ p, res.outcome ≠ .panic p) →
+      (∀ a ∈ l, ∃ id sets, parseTGData a.2 = .ok (id, sets) ∧ ∀ s ∈ sets, 8 ≤ s.buffer.length) →
+      ∀ p, (secondPass ex root l res).outcome ≠ .panic p := by
+  intro l
+  induction l with
+  | nil => intro res h _ p; exact h p
+  | cons a rest ih =>
+    intro res hres hl p
+    obtain ⟨aid, tg⟩ := a
+    obtain ⟨id, sets, hp, hb⟩ := hl (aid, tg) (by simp)
+    unfold secondPass
+    simp only at hp
+    rw [hp]
+    simp only
+    split
+    · exact ih _ (by simpa using hres) (fun b hb' => hl b (by simp [hb'])) p
+    · rename_i o c ws hne heq
+      simp only
+      have := applySets_no_panic ex root sets res.writes hb p
+      rw [heq] at this
+      exact this
+
+/-! ### truncation of a well-formed WAL -/
+
+/-- a complete TGDATA record with a correct checksum -/
+def encTG (body : Bytes) : Bytes :=
+  midTGDATA :: (leInt 8 body.length ++ (body ++ md5 (leInt 8 body.length ++ body)))
+
+theorem readTGData_enc (fsz : Nat) (body rest : Bytes) (h8 : 8 ≤ body.length)
+    (hs : (body.length : Int) < safetyFactor * fsz) (h63 : (body.length : Int) < 2 ^ 63)
+    (hck : (md5 (leInt 8 body.length ++ body)).length = 16) :
+    readTGData md5 fsz (leInt 8 body.length ++ (body ++ (md5 (leInt 8 body.length ++ body) ++ rest))) =
+      .ok (leDecodeInt (body.take 8)) body rest := by
+  have hL : leDecodeInt (leInt 8 (body.length : Int)) = body.length :=
+    leDecodeInt_leInt _ _ (by simp; omega) (by simp; omega)
+  have ht : (leInt 8 (body.length : Int) ++ (body ++ (md5 (leInt 8 body.length ++ body) ++ rest))).take tgLenBytes
+      = leInt 8 body.length := List.take_left' (leInt_length 8 _)
+  have hd : (leInt 8 (body.length : Int) ++ (body ++ (md5 (leInt 8 body.length ++ body) ++ rest))).drop tgLenBytes
+      = body ++ (md5 (leInt 8 body.length ++ body) ++ rest) := List.drop_left' (leInt_length 8 _)
+  unfold readTGData
+  simp only [ht, hd, hL]
+  have c1 : ¬ (leInt 8 (body.length : Int) ++ (body ++ (md5 (leInt 8 body.length ++ body) ++ rest))).length < tgLenBytes := by
+    simp [leInt_length, tgLenBytes]
+  simp only [c1, if_false, Int.toNat_natCast]
+  have c2 : ¬ ¬ (body.length : Int) < safetyFactor * fsz := by omega
+  have c3 : ¬ (body.length : Int) < 0 := by omega
+  have c4 : ¬ (body ++ (md5 (leInt 8 body.length ++ body) ++ rest)).length < body.length := by simp
+  have c5 : ¬ body.length < tgIDBytes - 1 := by simp [tgIDBytes]; omega
+  have c6 : ¬ body.length = 7 := by omega
+  simp only [c2, c3, c4, c5, c6, if_false, List.take_left, List.drop_left, List.append_nil]
+  have c7 : ¬ (md5 (leInt 8 body.length ++ body) ++ rest).length < checkSumBytes := by
+    simp [checkSumBytes, hck]
+  have t1 : (md5 (leInt 8 body.length ++ body) ++ rest).take checkSumBytes = md5 (leInt 8 body.length ++ body) :=
+    List.take_left' hck
+  have t2 : (md5 (leInt 8 body.length ++ body) ++ rest).drop checkSumBytes = rest := List.drop_left' hck
+  simp only [c7, if_false, t1, t2, if_true]
+
+/-- messages of a well-formed WAL body: a complete checksummed group, or an 11-byte TXNINFO record -/
+inductive Msg where
+  | tg (body : Bytes)
+  | info (buf : Bytes)
+
+def Msg.enc : Msg → Bytes
+  | .tg body => encTG md5 body
+  | .info buf => midTXNINFO :: buf
+
+/-- what the first pass does with a complete message -/
+def upd (st : St) : Msg → St
+  | .tg body => { st with tgData := st.tgData.put (leDecodeInt (body.take 8)) (some body),
+                          seen := leDecodeInt (body.take 8) :: st.seen }
+  | .info buf =>
+    if buf.getD 8 0 = destCHECKPOINT ∧ buf.getD 9 0 = statusCOMMITCOMPLETE ∧ st.tgData.has (leDecodeInt (buf.take 8)) then
+      { st with tgData := st.tgData.dropUpTo (leDecodeInt (buf.take 8)),
+                ckptDropped := st.ckptDropped ||
+                  st.tgData.any (fun e => decide (e.1 ≤ leDecodeInt (buf.take 8)) && e.2.isSome) }
+    else st
+
+/-- well-formedness of a message given the file size and the ids seen so far -/
+def Msg.ok (fsz : Nat) (st : St) : Msg → Prop
+  | .tg body => 8 ≤ body.length ∧ (body.length : Int) < safetyFactor * fsz ∧ (body.length : Int) < 2 ^ 63 ∧
+      (md5 (leInt 8 body.length ++ body)).length = 16 ∧ st.seen.contains (leDecodeInt (body.take 8)) = false
+  | .info buf => buf.length = 10
+
+theorem step_msg (fsz : Nat) (m : Msg) (rest : Bytes) (st : St) (h : m.ok md5 fsz st) :
+    step md5 fsz (m.enc md5 ++ rest) st = .cont rest (upd st m) := by
+  cases m with
+  | tg body =>
+    obtain ⟨h8, hs, h63, hck, hseen⟩ := h
+    simp only [Msg.enc, encTG, List.cons_append, List.append_assoc, step, if_true]
+    rw [readTGData_enc md5 fsz body rest h8 hs h63 hck]
+    simp only [hseen, Bool.false_eq_true, if_false, upd]
+  | info buf =>
+    have hl : buf.length = 10 := h
+    have hne : midTXNINFO ≠ midTGDATA := by decide
+    simp only [Msg.enc, List.cons_append, step, hne, if_false, if_true]
+    have c1 : ¬ (buf ++ rest).length < txnInfoBytes := by simp [txnInfoBytes, hl]
+    have t1 : (buf ++ rest).take txnInfoBytes = buf := List.take_left' hl
+    have t2 : (buf ++ rest).drop txnInfoBytes = rest := List.drop_left' hl
+    simp only [c1, if_false, t1, t2, upd]
+    split <;> rfl
+
+/-- a file that ends inside a message: the scan stops there; a cut group leaves `tgData[0] = nil` -/
+theorem step_cut (fsz : Nat) (m : Msg) (k : Nat) (st : St) (h : m.ok md5 fsz st)
+    (hk : k < (m.enc md5).length) :
+    step md5 fsz ((m.enc md5).take k) st = .stop st ∨
+    step md5 fsz ((m.enc md5).take k) st = .stop st.failedRead := by
+  cases k with
+  | zero => left; simp [step]
+  | succ k =>
+    cases m with
+    | tg body =>
+      obtain ⟨h8, hs, h63, hck, hseen⟩ := h
+      right
+      simp only [Msg.enc, encTG, List.take_succ_cons, step, if_true]
+      simp only [Msg.enc, encTG, List.length_cons, List.length_append, leInt_length, hck] at hk
+      have hL : leDecodeInt (leInt 8 (body.length : Int)) = body.length :=
+        leDecodeInt_leInt _ _ (by simp; omega) (by simp; omega)
+      generalize hq : (leInt 8 (body.length : Int) ++ (body ++ md5 (leInt 8 body.length ++ body))).take k = q
+      have hql : q.length = k := by
+        rw [← hq, List.length_take]; simp [leInt_length, hck]; omega
+      have hshort : readTGData md5 fsz q = .short := by
+        unfold readTGData
+        by_cases c1 : q.length < tgLenBytes
+        · simp only [c1, if_true]
+        · simp only [c1, if_false]
+          simp only [tgLenBytes] at c1
+          have ht : q.take tgLenBytes = leInt 8 (body.length : Int) := by
+            rw [← hq, List.take_take, Nat.min_eq_left (by simp only [tgLenBytes]; omega)]
+            exact List.take_left' (leInt_length 8 _)
+          have hdl : (q.drop tgLenBytes).length = k - 8 := by simp [tgLenBytes, hql]
+          simp only [ht, hL, Int.toNat_natCast]
+          have c2 : ¬ ¬ (body.length : Int) < safetyFactor * fsz := by omega
+          have c3 : ¬ (body.length : Int) < 0 := by omega
+          simp only [c2, c3, if_false]
+          by_cases c4 : (q.drop tgLenBytes).length < body.length
+          · simp only [c4, if_true]
+          · simp only [c4, if_false]
+            have c5 : ¬ body.length < tgIDBytes - 1 := by simp [tgIDBytes]; omega
+            simp only [c5, if_false]
+            have c6 : ((q.drop tgLenBytes).drop body.length).length < checkSumBytes := by
+              simp only [List.length_drop, checkSumBytes, tgLenBytes, hql]; omega
+            simp only [c6, if_true]
+      rw [hshort]
+    | info buf =>
+      left
+      have hl : buf.length = 10 := h
+      have hne : midTXNINFO ≠ midTGDATA := by decide
+      simp only [Msg.enc, List.take_succ_cons, step, hne, if_false, if_true]
+      simp only [Msg.enc, List.length_cons, hl] at hk
+      have c1 : (buf.take k).length < txnInfoBytes := by simp [txnInfoBytes, hl]; omega
+      simp only [c1, if_true]
+
+def encAll (ms : List Msg) : Bytes := (ms.map (Msg.enc md5)).flatten
+
+/-- every message is well formed with respect to the ids seen before it -/
+def AllOk (fsz : Nat) : St → List Msg → Prop
+  | _, [] => True
+  | st, m :: ms => m.ok md5 fsz st ∧ AllOk fsz (upd st m) ms
+
+/-- the messages that lie completely within the first `k` bytes -/
+def complete : List Msg → Nat → List Msg
+  | [], _ => []
+  | m :: ms, k => if (m.enc md5).length ≤ k then m :: complete ms (k - (m.enc md5).length) else []
+
+theorem enc_pos (m : Msg) : 1 ≤ (m.enc md5).length := by
+  cases m <;> simp [Msg.enc, encTG]
+
+/-- **truncation**: scanning the first `k` bytes of a well-formed message sequence ends normally in
+exactly the state produced by the messages that are complete within those `k` bytes (plus the
+`tgData[0] = nil` artefact when the cut falls inside a group record) -/
+theorem scan_truncated (fsz : Nat) : ∀ (ms : List Msg) (k : Nat) (st : St) (fuel : Nat),
+    AllOk md5 fsz st ms → k < fuel →
+    scanLoop md5 fsz fuel ((encAll md5 ms).take k) st = .done ((complete md5 ms k).foldl upd st) ∨
+    scanLoop md5 fsz fuel ((encAll md5 ms).take k) st = .done ((complete md5 ms k).foldl upd st).failedRead := by
+  intro ms
+  induction ms with
+  | nil =>
+    intro k st fuel _ hf
+    left
+    cases fuel with
+    | zero => omega
+    | succ n => simp [encAll, complete, scanLoop, step]
+  | cons m ms ih =>
+    intro k st fuel hok hf
+    obtain ⟨hm, hrest⟩ := hok
+    cases fuel with
+    | zero => omega
+    | succ n =>
+      have hpos := enc_pos md5 m
+      by_cases hle : (m.enc md5).length ≤ k
+      · have e : (encAll md5 (m :: ms)).take k = m.enc md5 ++ (encAll md5 ms).take (k - (m.enc md5).length) := by
+          simp only [encAll, List.map_cons, List.flatten_cons]
+          rw [List.take_append, List.take_of_length_le hle]
+        rw [e]
+        unfold scanLoop
+        rw [step_msg md5 fsz m _ st hm]
+        simp only [complete, hle, if_true, List.foldl_cons]
+        exact ih _ _ n hrest (by omega)
+      · have e : (encAll md5 (m :: ms)).take k = (m.enc md5).take k := by
+          simp only [encAll, List.map_cons, List.flatten_cons]
+          rw [List.take_append_of_le_length (by omega)]
+        rw [e]
+        unfold scanLoop
+        simp only [complete, hle, if_false, List.foldl_nil]
+        rcases step_cut md5 fsz m k st hm (by omega) with h | h
+        · left; rw [h]
+        · right; rw [h]
+
 end Mkts.WalReplay
